@@ -140,3 +140,11 @@ pub fn complete_path(word: &str, for_dir: bool) -> Vec<String> {
         .map(|c| c.completion)
         .collect()
 }
+
+pub fn do_command_substitution(sh: &mut shell::Shell, tokens: &mut Tokens) {
+    shell::verif::do_command_substitution(sh, tokens)
+}
+
+pub fn expand_glob(tokens: &mut Tokens) {
+    shell::verif::expand_glob(tokens)
+}
